@@ -81,3 +81,73 @@ contract(
     },
     examples=_ex_match,
 )
+
+
+# ------------------------------------------------------------------------------------------------
+# MoleculeResolver.edges_from_bonding_descrpt — the point where inter-fragment bonds are created (C03)
+_FG = "attr(self.meta_graph, {k}, 'graph')"
+_DESCR_WF = ("all(all(all(kind_ok(d) and ends_in_digit(d) for d in attr(" + _FG.format(k='k') + ", n, 'bonding')) "
+             "for n in nodes(" + _FG.format(k='k') + ") if has_attr(" + _FG.format(k='k') + ", n, 'bonding')) "
+             "for k in nodes(self.meta_graph) if has_attr(self.meta_graph, k, 'graph'))")
+_SUBSET = ("all(all(has_node(self.molecule, n) for n in nodes(" + _FG.format(k='k') + ")) "
+           "for k in nodes(self.meta_graph) if has_attr(self.meta_graph, k, 'graph'))")
+_ALLATOM = ("implies(all_atom, all(has_attr(self.molecule, n, 'element') and "
+            "(attr(self.molecule, n, 'element') == 'H' or has_attr(self.molecule, n, 'hcount')) for n in nodes(self.molecule)))")
+
+contract(
+    target='cgsmiles.resolve:MoleculeResolver.edges_from_bonding_descrpt', serves=['C03', 'C09', 'C11', 'C01'],
+    self_fields={'meta_graph': 'Graph:mol', 'molecule': 'Graph:mol', 'legacy': 'Bool'},
+    types={'all_atom': 'Bool'}, returns=None,
+    requires=[
+        "self.meta_graph != self.molecule",
+        # base-graph edge orders are non-negative integers
+        "all(has_eattr(self.meta_graph, e[0], e[1], 'order') and eattr(self.meta_graph, e[0], e[1], 'order') >= 0 and "
+        "eattr(self.meta_graph, e[0], e[1], 'order') == int(eattr(self.meta_graph, e[0], e[1], 'order')) for e in edge_list(self.meta_graph))",
+        # both ends of an edge of order >= 1 carry a fragment graph
+        "all(implies(eattr(self.meta_graph, e[0], e[1], 'order') >= 1, has_attr(self.meta_graph, e[0], 'graph') and "
+        "has_attr(self.meta_graph, e[1], 'graph')) for e in edge_list(self.meta_graph))",
+        # fragment graphs are separate objects from the two main graphs and from each other
+        "all(" + _FG.format(k='k') + " != self.molecule and " + _FG.format(k='k') + " != self.meta_graph "
+        "for k in nodes(self.meta_graph) if has_attr(self.meta_graph, k, 'graph'))",
+        "all(implies(" + _FG.format(k='a') + " == " + _FG.format(k='b') + ", a == b) "
+        "for a in nodes(self.meta_graph) if has_attr(self.meta_graph, a, 'graph') "
+        "for b in nodes(self.meta_graph) if has_attr(self.meta_graph, b, 'graph'))",
+        "all(e[0] != e[1] for e in edge_list(self.meta_graph))",
+        _SUBSET, _ALLATOM,
+    ],
+    ensures=[],
+    modifies=["self.molecule:edges,eattrs,attr:hcount", "graphs_of(self.meta_graph):attr:bonding"],
+    ghosts={'bonds': ('Int', '0'), 'src_before': ('List[Str]', "['']"), 'tgt_before': ('List[Str]', "['']")},
+    on_call={
+        # snapshots of the two descriptor lists at the moment the pair is chosen
+        'match_bonding_descriptors': [
+            "src_before = attr(arg_source, result[0][0], 'bonding')",
+            "tgt_before = attr(arg_target, result[0][1], 'bonding')"],
+        'add_edge': [
+            "bonds = bonds + 1",
+            # the bond joins a node of each end's fragment graph (so only across this base-graph edge) ...
+            "assert has_node(prev_graph, arg0) and has_node(node_graph, arg1)",
+            # ... each of which carried the recorded descriptor, the pair being compatible under the convention in force
+            "assert member(kw_bonding[0], src_before) and member(kw_bonding[1], tgt_before) and "
+            "spec_compatible(kw_bonding[0], kw_bonding[1], self.legacy)",
+            # each used descriptor instance is consumed: exactly its first occurrence is gone, nothing else changed
+            "assert attr(prev_graph, arg0, 'bonding') == without_first(src_before, kw_bonding[0])",
+            "assert attr(node_graph, arg1, 'bonding') == without_first(tgt_before, kw_bonding[1])",
+            # annotated order, 1.5 between two aromatic atoms (value at creation; DESIGN §6 C03)
+            "assert kw_order == (1.5 if (has_attr(self.molecule, arg0, 'aromatic') and attr(self.molecule, arg0, 'aromatic') and "
+            "has_attr(self.molecule, arg1, 'aromatic') and attr(self.molecule, arg1, 'aromatic')) else int(kw_bonding[0][-1]))",
+        ],
+    },
+    loops={
+        0: Loop(over='edges', invariant=[_ALLATOM],
+                pre_lemmas=["has_edge(self.meta_graph, prev_node, node)", "prev_node != node"],
+                # never more bonds than the order of the base-graph edge being processed (none for order 0)
+                lemmas=["bonds - _e1_bonds <= eattr(self.meta_graph, prev_node, node, 'order')"]),
+        1: Loop(over="range(0, self.meta_graph.edges[prev_node, node]['order'])",
+                invariant=[_ALLATOM, "bonds - _e1_bonds <= _i1"],
+                pre_lemmas=["has_attr(self.meta_graph, prev_node, 'graph') and has_attr(self.meta_graph, node, 'graph')",
+                            "attr(self.meta_graph, prev_node, 'graph') != attr(self.meta_graph, node, 'graph')"]),
+    },
+    abstract=['spec_compatible', 'kind_ok'], opaque=['ends_in_digit'], heap_invariants=['descriptors'],
+    notes="data invariant: every 'bonding' list of every graph holds descriptors (kind symbol first, order digit last)",
+)
